@@ -1,4 +1,4 @@
-import Sop.Lemmas.Recovery
+import Sop.Lemmas.RecoveryWitness
 /-!
 # C09 — work left by a crashed transaction is recovered by later transactions
 
@@ -14,8 +14,11 @@ and the scheduling globals exactly as they were — and `C09_counterexample` ref
 
 What does hold: `C09_recovered_if_idle_runs_partial` — the maintenance itself, once invoked with a store
 attached in a freshly started process with the ages past their thresholds, removes the dead transaction's log on
-its first run, and the priority log when the logged versions fit. (Whether what it does to the DATA is right is
-C08 — it is not, which is why wiring `onIdle` to the first attached store is not proposed as a repair.)
+its first run, and the priority log when the logged versions fit. What it does to the DATA is C08's subject:
+`onIdle_first_is_recover` shows that this first run is exactly C08's recovery (priority rollback, then expired-log
+rollback), so `C09_idle_recovers_atomically_partial` — for every start state, write set and crash point outside
+the three C08 finding windows the crashed commit is recovered all-or-nothing — and inside the windows it is not
+(C08-F1..F3), which is why wiring `onIdle` to the first attached store is not proposed as a repair.
 -/
 namespace Sop.C09
 open Sop.Commit Sop.Recovery
@@ -91,6 +94,58 @@ theorem C09_recovered_if_idle_runs_partial (d : DState) (stores : Nat) (now : In
       intro _; rw [he0.2.2]; simpa using hplg
     · simp at htl
       simp [hplg, htl, h1, h2]
+
+
+/-! ## What the maintenance does to the data when it does run
+
+The first `onIdle` of a freshly started process with a store attached and the ages past their thresholds performs
+exactly the recovery C08 reasons about: priority rollback, then expired-log rollback. So C08's general theorem
+applies to it: the crashed work is recovered all-or-nothing outside the three C08 finding windows. -/
+
+/-- the first maintenance run of a new process = `doPriorityRollbacks` then `processExpiredTransactionLogs` on the
+dead transaction's files -/
+theorem onIdle_first_is_recover (d : DState) (stores : Nat) (now : Int) (hnow : now > fourHours) :
+    (onIdle (stores + 1) now { x := (d, []) }).x = expiredRollback (priorityRollback (d, [])) := by
+  have hp := priorityRollback_spec (d, [])
+  have h1 : ¬ (now < now - 300000) := by omega
+  have h2 : (14400000 : Int) < now := by unfold fourHours at hnow; omega
+  have hnone : d.plg = none → priorityRollback (d, []) = (d, []) := fun h => priorityRollback_none (d, []) h
+  have hskip : ∀ x : DState × List Ev, x.1.s.tlog x.1.tid = false → expiredRollback x = x := by
+    intro x hx; unfold expiredRollback; simp [hx]
+  unfold onIdle doPriorityRollbacks processExpired
+  by_cases hplg : d.plg.isSome = true
+  · by_cases htl : d.s.tlog d.tid = true
+    · simp [hplg, htl, h1, h2, hp.1, hp.2]
+    · simp at htl
+      simp [hplg, htl, h1, h2, hp.1, hp.2]
+      rw [hskip _ (by rw [hp.1, hp.2]; exact htl)]
+  · simp at hplg
+    rw [hnone hplg]
+    by_cases htl : d.s.tlog d.tid = true
+    · simp [hplg, htl, h1, h2]
+    · simp at htl
+      simp [hplg, htl, h1, h2]
+      rw [hskip _ htl]
+
+/-- **When the maintenance does run, the crashed commit is recovered all-or-nothing** — for every start state,
+write set (`WF`) and crash point outside the three C08 finding windows: every node loadable before reads as before
+with the old counts, or (only after cleanup's first log line) the transaction's result is in place with the new
+counts; a registered new root is loadable; both files of the dead transaction are gone. -/
+theorem C09_idle_recovers_atomically_partial {s0 : State} {w : WS} {fresh : List (UUID × UUID)} (wf : WF s0 w fresh)
+    (tid : Tid) (m : Nat) (hw : inWindow w ((commitOps s0 fresh w).take m) = false)
+    (stores : Nat) (now : Int) (hnow : now > fourHours) :
+    let a := (onIdle (stores + 1) now { x := (crashAt s0 tid fresh w m, []) }).x.1
+    (OldOutcome s0 a.s ∨
+      (hasLog .deleteObsoleteEntries ((commitOps s0 fresh w).take m) = true ∧ NewOutcome s0 fresh w a.s))
+    ∧ RootsOK w a.s ∧ a.plg = none ∧ a.s.tlog tid = false := by
+  simp only
+  rw [onIdle_first_is_recover _ _ _ hnow, ← recover_fst]
+  exact atomic_outside_windows wf tid m hw
+
+/-- non-vacuity of `C09_idle_recovers_atomically_partial`: premises, a crash point outside the windows that left both files -/
+example : WF Witness.s0 (wU 1) [(1, 9)] ∧ inWindow (wU 1) ((commitOps Witness.s0 [(1, 9)] (wU 1)).take 7) = false
+    ∧ (crashAt Witness.s0 1 [(1, 9)] (wU 1) 7).s.tlog 1 = true ∧ fourHours + 1 > fourHours :=
+  ⟨wf_upd 1, by decide +kernel, by decide +kernel, by decide⟩
 
 /-- non-vacuity: on the witness the maintenance does remove both files -/
 example : let i := onIdle 1 (fourHours + 1) { x := (dead, []) }
